@@ -419,6 +419,15 @@ SITES["C16"] = [
          atoms={"self._numbers": ("cached", O), "self._vocab": ("vocab", O)}),
 ]
 
+# `ComponentNode.create`: what kind of node a component given to the builder becomes — a class that takes a configuration always has the
+# configuration validated (a missing one becomes the component's default settings), so that the document lists the settings in force
+SITES["C13"] += [
+    dict(file="pipeline/nodes.py", cls="ComponentNode", fn="create", mode="fn", lean="createDispatch",
+         atoms={"isinstance(comp, Component)": ("isInstance", B), "isinstance(comp, ComponentConstructor)": ("isConstructor", B), "isinstance(comp, type)": ("isType", B),
+                "ComponentInstanceNode(name, cast(Component[ND], comp))": ("0", "const"), "ComponentConstructorNode(name, comp, comp.validate_config(config))": ("1", "const"),
+                "ComponentConstructorNode(name, comp, None)": ("2", "const"), "ComponentInstanceNode(name, comp)": ("3", "const")}),
+]
+
 # the three stochastic components build their generator factory once, when constructed, and draw from it once per call
 SITES["C19"] += [
     dict(file=f, cls=c, fn="__init__", mode="once", attr="_rng_factory", maker="derivable_rng(self.config.rng)", use_fn="__call__", use="self._rng_factory(query)", lean=l, atoms={})
